@@ -2,6 +2,7 @@
   C12 — Address-collision analysis is sound and complete.
 -/
 import DDV.Gen.AddrSem
+import DDV.Gen.Lemmas.Claimed
 
 namespace DDV.Props.C12
 open DDV.Gen
@@ -110,5 +111,68 @@ theorem collision_reject_iff {α : Type} (claimed : List Claimed) (x : α) :
     · intro s h
       obtain ⟨h1, h2, h3⟩ := reported_pair_collides claimed a b hf
       exact ⟨a, b, h2, h3, h1, (Except.error.inj h).symm⟩
+
+/-! ### The expanded list is exactly the set of accessor chains (C12 ⇄ C04) -/
+
+/-- **The instances the pass compares are exactly the accessor chains of the lowered device.**
+    Whenever the expansion of the root block finishes (it does unless a block resolves to one of
+    its own ancestors, or an address leaves `i64`): every entry is the address
+    `Σ (block offset + index·stride) + object address + index·stride` of a chain of accessor calls
+    with valid indices ending at a register / command / buffer accessor, with that accessor's kind
+    and overlap flag — and every such chain has an entry. -/
+theorem instances_are_accessor_chains (n : Names) (blocks : List LBlock) (fuel : Nat) (root : LBlock)
+    (cs : List Claimed) (h : claimedOfBlock n blocks fuel root 0 [] = .ok cs) :
+    (∀ c ∈ cs, ∃ ch, LeafChain blocks root.methods ch ∧ Claims c ch 0) ∧
+    (∀ ch, LeafChain blocks root.methods ch → ∃ c ∈ cs, Claims c ch 0) :=
+  claimedOfBlock_spec n blocks fuel root 0 [] cs h
+
+/-- Two accessor chains collide: same kind of accessor at the end, same address, not both allowing overlap. -/
+def ChainsCollide (ch1 ch2 : List (Method × Nat)) : Prop :=
+  ∃ m1 m2, chainLeaf ch1 = some m1 ∧ chainLeaf ch2 = some m2 ∧ m1.kind = m2.kind ∧
+    specChain ch1 0 = specChain ch2 0 ∧ ¬ (m1.allowAddressOverlap = true ∧ m2.allowAddressOverlap = true)
+
+theorem collide_of_claims {a b : Claimed} {ch1 ch2 : List (Method × Nat)}
+    (h1 : Claims a ch1 0) (h2 : Claims b ch2 0) : Collide a b ↔ ChainsCollide ch1 ch2 := by
+  obtain ⟨a1, m1, l1, k1, o1⟩ := h1
+  obtain ⟨a2, m2, l2, k2, o2⟩ := h2
+  unfold Collide ChainsCollide
+  constructor
+  · intro ⟨e1, e2, e3⟩
+    exact ⟨m1, m2, l1, l2, by rw [← k1, ← k2]; exact e2, by rw [← a1, ← a2]; exact e1, by rw [← o1, ← o2]; exact e3⟩
+  · intro ⟨n1, n2, p1, p2, e2, e1, e3⟩
+    rw [l1] at p1; rw [l2] at p2
+    cases p1; cases p2
+    exact ⟨by rw [a1, a2]; exact e1, by rw [k1, k2]; exact e2, by rw [o1, o2]; exact e3⟩
+
+/-- **Soundness at the level of accessors.** A reported collision is a collision between two
+    accessor chains of the device: the analysis never rejects for an address nothing can reach. -/
+theorem rejection_is_a_real_collision (n : Names) (l : Lir) (s : Stop) (root : LBlock) (cs : List Claimed)
+    (hcs : claimedOfBlock n l.blocks (2 * l.blocks.length + 4) root 0 [] = .ok cs)
+    (h : reportCollision cs l = .error s) :
+    ∃ ch1 ch2, LeafChain l.blocks root.methods ch1 ∧ LeafChain l.blocks root.methods ch2 ∧ ChainsCollide ch1 ch2 := by
+  obtain ⟨a, b, ha, hb, hcol, _⟩ := (collision_reject_iff cs l).2 s h
+  have spec := instances_are_accessor_chains n l.blocks _ root cs hcs
+  obtain ⟨ch1, l1, c1⟩ := spec.1 a ha
+  obtain ⟨ch2, l2, c2⟩ := spec.1 b hb
+  exact ⟨ch1, ch2, l1, l2, (collide_of_claims c1 c2).1 hcol⟩
+
+/-- **Completeness at the level of accessors.** If the definition is accepted, any two accessor
+    chains that collide are claimed by one and the same entry of the expanded list (they are the
+    same instance): no collision between two different instances goes unreported. -/
+theorem accepted_means_no_two_instances_collide (n : Names) (l : Lir) (root : LBlock) (cs : List Claimed)
+    (hcs : claimedOfBlock n l.blocks (2 * l.blocks.length + 4) root 0 [] = .ok cs)
+    (h : reportCollision cs l = .ok l) :
+    ∀ ch1 ch2, LeafChain l.blocks root.methods ch1 → LeafChain l.blocks root.methods ch2 → ChainsCollide ch1 ch2 →
+      ∀ i j (hi : i < cs.length) (hj : j < cs.length), Claims cs[i] ch1 0 → Claims cs[j] ch2 0 → i = j := by
+  intro ch1 ch2 l1 l2 hcol i j hi hj c1 c2
+  have hp := (collision_reject_iff cs l).1.1 h
+  have hcoll : Collide cs[i] cs[j] := (collide_of_claims c1 c2).2 hcol
+  have hcoll' : Collide cs[j] cs[i] := by
+    obtain ⟨e1, e2, e3⟩ := hcoll
+    exact ⟨e1.symm, e2.symm, fun ⟨x, y⟩ => e3 ⟨y, x⟩⟩
+  rcases Nat.lt_trichotomy i j with hlt | heq | hgt
+  · exact absurd hcoll (List.pairwise_iff_getElem.1 hp i j hi hj hlt)
+  · exact heq
+  · exact absurd hcoll' (List.pairwise_iff_getElem.1 hp j i hj hi hgt)
 
 end DDV.Props.C12
